@@ -6,7 +6,8 @@ for d in seeded/*/; do
   f=$d/patch.diff; [ -f $d/patch_ported.diff ] && f=$d/patch_ported.diff
   sibling=$(python3 -c "import json,sys; print(json.load(open('$d/meta.json')).get('caught_by_sibling_check',''))" 2>/dev/null)
   [ -n "$sibling" ] && pid=$sibling
-  ( out=$(harness/mutant_test.sh /verif/$f $pid 2>&1); rc=$?; sig=$(echo "$out" | grep -m1 "signature:" | sed 's/.*signature: //'); echo "MUTANT $id on=$pid rc=$rc $sig" ) &
+  nc=$(python3 -c "import json,sys; print('recorded-as-not-caught' if json.load(open('$d/meta.json')).get('not_caught') else '')" 2>/dev/null)
+  ( out=$(harness/mutant_test.sh /verif/$f $pid 2>&1); rc=$?; sig=$(echo "$out" | grep -m1 "signature:" | sed 's/.*signature: //'); echo "MUTANT $id on=$pid rc=$rc $sig $nc" ) &
   while [ $(jobs -r | wc -l) -ge 5 ]; do sleep 1; done
 done
 wait
